@@ -16,6 +16,10 @@ Monitors (tagged streams vf/ref/c14_tagstream.py decide loss/dup/reorder):
   eof_after_data     peer EOF without close_notify: ConnectionClosed arrives, preceded by the plaintext of every
                      completely delivered record (prefix of the stream if the cut is inside a record)
   first_flight       application data sent in the same flight as the peer's Finished is delivered
+  close_exactly_once a peer's close (close_notify and/or FIN) reaches the inner layer exactly once; start_first: Start precedes all
+A fixed matrix runs first in both tiers: (stack, flow, side) x TLS 1.2/1.3 x what the peer appends to its last handshake
+flight {nothing, data, data+close_notify, close_notify, data+FIN, close_notify+FIN, data+close_notify+FIN, FIN} x segmentation
+{one segment, one record per segment, byte-wise}; see the class table above matrix_specs().
 (the inner layer may also half-close a connection in the middle: the peer's later bytes must still arrive)
 """
 from __future__ import annotations
@@ -49,7 +53,7 @@ ENGINE = "sansio"
 TECHNIQUE = "real OpenSSL peers in memory + tagged plaintext streams; random record sizing, TCP re-segmentation and schedules"
 BUDGET = {"quick": (500, 10), "thorough": (20_000, 180)}
 WORKERS = {"quick": 4, "thorough": 16}
-REQUIRED = ["c2p", "s2p", "p2c", "p2s", "close_after_data.client", "close_after_data.server", "eof_after_data", "first_flight", "tls12", "tls13"]
+REQUIRED = ["c2p", "s2p", "p2c", "p2s", "close_after_data.client", "close_after_data.server", "eof_after_data", "first_flight", "tls12", "tls13", "coalesced_matrix", "coalesced_behind_handshake_flight", "close_exactly_once", "start_first"]
 RULE = (
     "case = (stack in {client+server TLS, client TLS only, server TLS only}, connection flow in {server connected before Start, "
     "opened by the ClientHello hook (eager), opened by the inner layer (lazy)}, TLS 1.2 / 1.3 per peer, application plan: 4-14 steps of "
@@ -63,7 +67,7 @@ ASSUMPTIONS = [
     "peers are OpenSSL endpoints (Python ssl); records are whatever OpenSSL produces for writes of 1 B ... 40 kB (<= 16 kB each)",
     "bytes of a record that was not completely delivered before a transport EOF need not be delivered (truncation)",
     "the probe only sends on a connection it may write to (not after it closed it, not before it is connected)",
-    "a second ConnectionClosed for the same connection is recorded, not judged",
+    "alerts other than close_notify cannot be produced by the peers (Python ssl)",
 ]
 LEVEL_TEXT = (
     "Exploration: hundreds (quick) to tens of thousands (thorough) of real in-memory TLS 1.2/1.3 sessions through the real TLS layers "
@@ -114,6 +118,7 @@ class Probe(layer.Layer):
         run = self.run
         if isinstance(ev, events.Start):
             self.started += 1
+            self.events_seen.append(("start",))
         elif isinstance(ev, events.DataReceived):
             s = self.side(ev.connection)
             self.got[s] += ev.data
@@ -286,6 +291,7 @@ class Run:
         self.eof_fed = {"c": False, "s": False}
         self.eof_info = {}
         self.server_closed_by_probe = False
+        self.coalesced_behind = {}
         self.first_flight = {"c": None, "s": None}  # plaintext bytes written while the Finished flight was still undelivered
         self.peer = {}
         if self.has_c:
@@ -363,11 +369,30 @@ class Run:
             self.blobs[s].append((self.wire_total[s], plain_end))
 
     def on_peer_handshaken(self, s):
-        """Application data in the same flight as the peer's last handshake message."""
+        """Application data (and close_notify) in the same flight as the peer's last handshake message."""
+        co = self.spec.get("coalesce", {}).get(s)
+        if co is not None and self.first_flight[s] is None:
+            # is the flight that completes mitmproxy's handshake still undelivered?  (TLS 1.3 client / TLS 1.2 server: yes)
+            conn = self.client if s == "c" else self.server
+            self.coalesced_behind[s] = len(self.wire[s]) > 0 and not conn.tls_established
+            total = 0
+            for n in co["data"]:
+                total += n
+                self.peer_write(s, n)
+            self.first_flight[s] = total
+            if co["cn"]:
+                self.peer_close_notify(s)
+            return
         if self.spec["first_flight"][s] and self.first_flight[s] is None:
             n = self.spec["first_flight"][s]
             self.first_flight[s] = n
             self.peer_write(s, n)
+
+    def peer_close_notify(self, s):
+        nplain = len(self.streams[s + "2p"].taken)
+        self.peer[s].close_notify()
+        self.collect(s)
+        self.close_notify_at[s] = (nplain, self.wire_total[s])
 
     def peer_write(self, s, n):
         st = self.streams[s + "2p"]
@@ -387,6 +412,10 @@ class Run:
         r = self.r
         if k == "whole":
             return n
+        if k == "records":  # one TLS record per TCP segment
+            return 5 + int.from_bytes(self.wire[s][3:5], "big") if n >= 5 else n
+        if k == "bytes":
+            return 1
         if k == "bytewise":
             return 1 if n < 300 or r.random() < 0.05 else r.choice([1, 2, 3, 5, 1000, n])
         if k == "small":
@@ -479,12 +508,7 @@ class Run:
         elif k == "kick":
             self.feed(Kick(st[1], st[2], close=len(st) > 3))
         elif k in ("ccn", "scn"):
-            s = k[0]
-            p = self.peer[s]
-            nplain = len(self.streams[s + "2p"].taken)
-            p.close_notify()
-            self.collect(s)
-            self.close_notify_at[s] = (nplain, self.wire_total[s])
+            self.peer_close_notify(k[0])
         elif k in ("ceof", "seof"):
             self.transport_eof(k[0], st[1])
 
@@ -620,12 +644,77 @@ def gen_spec(r):
         ff["c"] = size("c")
     if has_s and r.random() < 0.45:
         ff["s"] = size("s")
-    segk = ["mixed", "mixed", "whole", "bytewise", "small", "record"]
+    segk = ["mixed", "mixed", "whole", "bytewise", "small", "record", "records"]
+    coalesce = {}
+    if r.random() < 0.2:
+        # [last handshake flight | 0-3 writes | close_notify?] produced back to back by the peer
+        side = r.choice([s for s, ok in (("c", has_c), ("s", has_s)) if ok])
+        cn = r.random() < 0.7
+        coalesce[side] = {"data": [size(side) for _ in range(r.choice([0, 1, 1, 2, 3]))], "cn": cn}
+        ff[side] = 0
+        if cn:
+            drop = (side + "w", side + "cn")
+            plan = [st for st in plan if st[0] not in drop]
+            tail = [st for st in tail if st[0] not in drop]
+            close = f"{side}-notify-with-handshake-flight"
     return {
+        "coalesce": coalesce,
         "stack": stack, "flow": flow, "cver": cver, "sver": sver, "plan": plan + tail + fin, "close": close,
         "first_flight": ff, "seg": {"c": r.choice(segk), "s": r.choice(segk)}, "sizes": szc,
         "plan_bias": r.choice([0.15, 0.4, 0.7]), "complete_bias": r.choice([0.3, 0.6, 0.9]),
     }
+
+
+# ---------------------------------------------------------------------------------------------
+# fixed matrix: what a peer can put behind the flight that completes the handshake
+# ---------------------------------------------------------------------------------------------
+# Which flight completes mitmproxy's handshake, and what an (OpenSSL) peer can append to it:
+#   client side, TLS 1.3: the client's (CCS,) Finished -- the client is done itself, so data / close_notify / FIN can follow
+#   client side, TLS 1.2: the client's CKE, CCS, Finished -- the client still waits for our Finished: only FIN (or nothing)
+#   server side, TLS 1.2: the server's (ticket,) CCS, Finished -- the server is done: data / close_notify / FIN can follow
+#   server side, TLS 1.3: the server's ServerHello..Finished -- the server still waits for our Finished: only FIN (or nothing)
+# (a peer that is not done yet produces the same bytes in its next flight, i.e. on an OPEN tunnel: these are the controls;
+#  alerts other than close_notify cannot be produced with Python's ssl and are not part of the matrix)
+BEHIND = ["nothing", "data", "data+cn", "cn", "data+fin", "cn+fin", "data+cn+fin", "fin"]
+MATRIX_PAIRS = [
+    ("client", "none", "c"),
+    ("both", "preconnected", "c"), ("both", "preconnected", "s"),
+    ("both", "hello-opens", "c"), ("both", "hello-opens", "s"),
+    ("both", "lazy", "c"), ("both", "lazy", "s"),
+    ("server", "preconnected", "s"), ("server", "lazy", "s"),
+]
+
+
+def matrix_specs():
+    out = []
+    for stack, flow, side in MATRIX_PAIRS:
+        for ver in ("1.2", "1.3"):
+            for behind in BEHIND:
+                for seg in ("whole", "records", "bytes"):
+                    other = "1.3" if ver == "1.2" else "1.2"
+                    has_c, has_s = stack != "server", stack != "client"
+                    oside = "s" if side == "c" else "c"
+                    plan = []
+                    if flow == "lazy" and has_s:
+                        plan.append(("kick", "s", 5))
+                    eofs = [(side + "eof", "clean")]
+                    if (oside == "c" and has_c) or (oside == "s" and has_s):
+                        eofs.append((oside + "eof", "clean"))
+                        kicks = [("kick", oside, 7), ("kick", side, 9)]
+                    else:
+                        kicks = [("kick", side, 9)]
+                    if "fin" in behind:
+                        plan += [eofs[0]] + kicks + eofs[1:]
+                    else:
+                        plan += kicks + eofs
+                    out.append({
+                        "matrix": (stack, flow, side, ver, behind, seg),
+                        "coalesce": {side: {"data": [17, 1400, 3] if "data" in behind else [], "cn": "cn" in behind}},
+                        "stack": stack, "flow": flow, "cver": ver if side == "c" else other, "sver": ver if side == "s" else other,
+                        "plan": plan, "close": "coalesced:" + behind, "first_flight": {"c": 0, "s": 0},
+                        "seg": {side: seg, oside: "whole"}, "sizes": {}, "plan_bias": 1.0, "complete_bias": 1.0,
+                    })
+    return out
 
 
 # ---------------------------------------------------------------------------------------------
@@ -639,7 +728,7 @@ def classify(spec, kind, direction, diag):
 
 def judge(ctx, run: Run):
     spec = run.spec
-    w = {k: spec[k] for k in ("stack", "flow", "cver", "sver", "close", "first_flight", "seg", "sizes")}
+    w = {k: spec[k] for k in ("stack", "flow", "cver", "sver", "close", "first_flight", "seg", "sizes", "coalesce")}
     w["plan"] = [list(p) for p in spec["plan"]][:24]
     w["hooks"] = run.hooks[:12]
     w["logs"] = run.logs[:6]
@@ -701,8 +790,6 @@ def judge(ctx, run: Run):
                     bad("close-before-all-earlier-plaintext", s, None, plaintext_before_close=closes[0][0], written_before_close_notify=nplain)
                 elif closes[0][1] < cipher_end:
                     bad("close-surfaced-before-close_notify-delivered", s, None)
-            if len(closes) > 1:
-                ctx.count("second_close_observed")
         elif s in run.eof_info:
             ctx.count("eof_after_data")
             info = run.eof_info[s]
@@ -710,10 +797,16 @@ def judge(ctx, run: Run):
                 bad("transport-eof-not-surfaced", s, None)
             elif closes[info["closes_before"]][0] != len(got):
                 bad("data-delivered-after-close", s, None)
+        if cn is not None or s in run.eof_info:
+            # a peer closes once (close_notify and/or FIN): the inner layer is told exactly once
+            ctx.count("close_exactly_once")
             if len(closes) > 1:
-                ctx.count("second_close_observed")
+                bad("close-delivered-twice", s, None, closes=[c[0] for c in closes], eof_fed=run.eof_fed[s])
     if pr.started != 1:
         bad("probe-start-count", None, None, started=pr.started)
+    ctx.count("start_first")
+    if pr.events_seen and pr.events_seen[0] != ("start",):
+        bad("event-delivered-before-start", None, None, first_events=pr.events_seen[:4])
     nk = sum(1 for st in spec["plan"] if st[0] == "kick")
     ctx.count("queued_events_replayed")
     if pr.kicks != nk:
@@ -739,11 +832,14 @@ def features(run: Run):
 
 def run(ctx):
     n_cases = n_undecided = 0
+    matrix = matrix_specs()
+    ctx.extra["matrix_cells"] = len(matrix)
     try:
         for i in ctx.cases():
             n_cases += 1
             r = ctx.rng
-            spec = gen_spec(r)
+            k = i * ctx.nworkers + ctx.worker
+            spec = matrix[k] if k < len(matrix) else gen_spec(r)
             rn = Run(r, spec)
             try:
                 rn.go()
@@ -757,6 +853,14 @@ def run(ctx):
                 continue
             judge(ctx, rn)
             sig, nt = features(rn)
+            if "matrix" in spec:
+                side = spec["matrix"][2]
+                behind = bool(rn.coalesced_behind.get(side))
+                ctx.count("coalesced_matrix")
+                if behind:
+                    ctx.count("coalesced_behind_handshake_flight")
+                ctx.seen("matrix_classes", f"{side}-side TLS {spec['matrix'][3]}: peer output {'shares the flight that completes the handshake' if behind else 'goes out after the handshake (control)'}")
+                sig, nt = ("matrix", *spec["matrix"], behind), True
             ctx.seen("hook_sequences", ",".join(rn.hooks))
             ctx.case(
                 sig, nontrivial=nt,
